@@ -146,11 +146,10 @@ def check(ctx):
     conj = [norm(c) for c in flatten_boolop(sel.test, ast.And)]
 
     def excluded(key: str, missing: str) -> bool:
-        forms = {
-            f"not (({key} in method_by_cls) and ({missing} not in method_by_cls))",
-            f"not ({key} in method_by_cls and {missing} not in method_by_cls)",
-            f"{key} not in method_by_cls or {missing} in method_by_cls",
-        }
+        """the shortcut is not selected whenever an alternative is keyed by `key` (its node also accepts data of class
+        `missing`). Excluding it only when no alternative is keyed by `missing` is NOT enough: data of that class is then
+        routed to the other alternative alone, which can reject what this one accepts (constraints, validators)."""
+        forms = {f"{key} not in method_by_cls", f"not {key} in method_by_cls", f"not ({key} in method_by_cls)"}
         return any(c in forms for c in conj)
 
     n_keyed = 0
@@ -295,7 +294,7 @@ def mutants(mb):
     D = "apischema/deserialization/__init__.py"
     M = "apischema/deserialization/methods.py"
     S = "apischema/serialization/methods.py"
-    mb.add_text("float-int-exclusion-removed", D, "                # float alternative accepts integers too, which dispatch by type misses\n                and not (float in method_by_cls and int not in method_by_cls)\n", "", "C13.R1", "FloatMethod")
+    mb.add_text("float-int-exclusion-removed", D, "                and float not in method_by_cls\n", "", "C13.R1", "FloatMethod")
     mb.add_text("one-key-removed", D, "                len(method_by_cls) == len(alt_factories)\n                and not any(", "                not any(", "C13.R2", "one-key")
     mb.add_text("coercer-check-removed", D, "                and not any(isinstance(x, CoercerMethod) for x in alt_methods)\n", "", "C13.R2", "no-coercion")
     mb.add_text("optional-any-arity", D, "            if NoneType in types and len(alt_methods) == 2:", "            if NoneType in types:", "C13.R2", "OptionalMethod")
@@ -311,4 +310,5 @@ def mutants(mb):
     mb.add_text("discriminator-key-guard-or", S, "        if isinstance(res, dict) and self.alias not in res:", "        if isinstance(res, dict) or self.alias not in res:", "C13.R4", "DiscriminatedAlternative")
     mb.add_text("discriminator-key-forgotten", M, "            if isinstance(data, Discriminated):\n                discriminator = data.discriminator\n                data = data.data\n                if not isinstance(data, dict):\n                    raise bad_type(data, dict)\n            else:\n                raise bad_type(data, dict)\n        values: dict = {}", "            if isinstance(data, Discriminated):\n                data = data.data\n                if not isinstance(data, dict):\n                    raise bad_type(data, dict)\n            else:\n                raise bad_type(data, dict)\n        values: dict = {}", "C13.R6", "ObjectMethod:discriminated")
     mb.add_text("discriminator-wrap-dropped", M, "            return method.deserialize(Discriminated(self.alias, data))", "            return method.deserialize(data)", "C13.R6", "wrap")
-    mb.add_text("neg-exclusion-rewritten", D, "                and not (float in method_by_cls and int not in method_by_cls)\n", "                and (float not in method_by_cls or int in method_by_cls)\n", negative=True)
+    mb.add_text("float-exclusion-only-without-int", D, "                and float not in method_by_cls\n", "                and not (float in method_by_cls and int not in method_by_cls)\n", "C13.R1", "FloatMethod")
+    mb.add_text("neg-exclusion-rewritten", D, "                and float not in method_by_cls\n", "                and not (float in method_by_cls)\n", negative=True)
